@@ -376,13 +376,13 @@ func b64(s string) ([]byte, error) { return base64.RawURLEncoding.DecodeString(s
 var pz struct {
 	selOn, selUsed bool   // owned selects: a non-default outcome may still be chosen / was chosen
 	selAt          string // "<file>:<line> case k" of that outcome
-	c    *choice.Ctx
-	ch   chan struct{}
-	at   string
-	used bool
-	hits map[string]int
-	cap  int
-	n    int64 // pauses taken (evidence counter)
+	c              *choice.Ctx
+	ch             chan struct{}
+	at             string
+	used           bool
+	hits           map[string]int
+	cap            int
+	n              int64 // pauses taken (evidence counter)
 
 	window, windows, step int
 
